@@ -17,7 +17,8 @@ theorem toyEnc_length (k : UInt8) (d : Dir) (n : Nat) (m : Bytes) : (toyEnc k d 
   simp only [toyEnc, toyPad, List.length_cons, List.length_append, List.length_replicate]; omega
 
 theorem toyDec_some (k : UInt8) (d : Dir) (c m : Bytes) (h : toyDec k d c = some m) : ∃ n, c = toyEnc k d n m := by
-  rcases c with _ | ⟨b0, _ | ⟨k', _ | ⟨d', rest⟩⟩⟩
+  rcases c with _ | ⟨b0, _ | ⟨k', _ | ⟨d', _ | ⟨t, rest⟩⟩⟩⟩
+  · simp [toyDec] at h
   · simp [toyDec] at h
   · simp [toyDec] at h
   · simp [toyDec] at h
@@ -26,19 +27,100 @@ theorem toyDec_some (k : UInt8) (d : Dir) (c m : Bytes) (h : toyDec k d c = some
     · rename_i hc
       have hk : k' = k := hc.1
       have hd : d' = dirByte d := hc.2.1
-      have hp : rest.take 21 = toyPad := hc.2.2.1
+      have hp : rest.take 20 = toyPad := hc.2.2.1
+      have ht : t = cks (b0 :: rest.drop 20) := hc.2.2.2.2
       refine ⟨b0.toNat, ?_⟩
-      have hm : rest.drop 21 = m := by simpa using h
+      have hm : rest.drop 20 = m := by simpa using h
       have hr : rest = toyPad ++ m := by
-        rw [← hp, ← hm]; exact (List.take_append_drop 21 rest).symm
-      simp [toyEnc, hk, hd, hr]
+        rw [← hp, ← hm]; exact (List.take_append_drop 20 rest).symm
+      have hd20 : List.drop 20 (toyPad ++ m) = m := by simp [toyPad]
+      simp [toyEnc, hk, hd, hr, ht, hd20]
     · simp at h
 
 theorem toyEnc_sep (k : UInt8) (d : Dir) (n : Nat) (m : Bytes) (k' : UInt8) (d' : Dir) (n' : Nat) (m' : Bytes)
     (h : toyEnc k d n m = toyEnc k' d' n' m') : k = k' ∧ d = d' ∧ m = m' := by
   simp only [toyEnc, List.cons.injEq] at h
-  obtain ⟨_, hk, hd, hm⟩ := h
+  obtain ⟨_, hk, hd, _, hm⟩ := h
   exact ⟨hk, dirByte_inj hd, List.append_cancel_left hm⟩
+
+/-! Hamming distance facts and the checksum -/
+
+theorem hdist_self (l : Bytes) : hdist l l = 0 := by
+  induction l with
+  | nil => rfl
+  | cons a l ih => simp [hdist, ih]
+
+theorem hdist_eq_zero (l r : Bytes) (h : hdist l r = 0) : l = r := by
+  induction l generalizing r with
+  | nil => cases r with
+    | nil => rfl
+    | cons b r => simp [hdist] at h
+  | cons a l ih => cases r with
+    | nil => simp [hdist] at h
+    | cons b r =>
+      simp only [hdist] at h
+      by_cases hab : a = b
+      · subst hab; simp at h; rw [ih r h]
+      · simp [hab] at h
+
+theorem hdist_append_left (p l r : Bytes) : hdist (p ++ l) (p ++ r) = hdist l r := by
+  induction p with
+  | nil => rfl
+  | cons a p ih => simp [hdist, ih]
+
+def bsum (l : Bytes) : Nat := (l.map UInt8.toNat).sum
+
+theorem bsum_cons (a : UInt8) (l : Bytes) : bsum (a :: l) = a.toNat + bsum l := by simp [bsum]
+
+theorem bsum_hdist1 (l r : Bytes) (h : hdist l r = 1) : bsum l % 256 ≠ bsum r % 256 := by
+  induction l generalizing r with
+  | nil => cases r <;> simp [hdist] at h
+  | cons a l ih => cases r with
+    | nil => simp [hdist] at h
+    | cons b r =>
+      simp only [hdist] at h
+      rw [bsum_cons, bsum_cons]
+      have ha := a.toNat_lt
+      have hb := b.toNat_lt
+      by_cases hab : a = b
+      · subst hab
+        simp at h
+        have := ih r h
+        omega
+      · simp [hab] at h
+        have hlr : l = r := hdist_eq_zero l r (by omega)
+        subst hlr
+        have : a.toNat ≠ b.toNat := fun hh => hab (UInt8.toNat_inj.mp hh)
+        omega
+
+theorem cks_hdist1 (l r : Bytes) (h : hdist l r = 1) : cks l ≠ cks r := by
+  intro he
+  have h1 := bsum_hdist1 l r h
+  have : (cks l).toNat = (cks r).toNat := by rw [he]
+  simp only [cks, UInt8.toNat_ofNat'] at this
+  simp only [bsum] at h1
+  omega
+
+theorem toy_tamper1 (k : UInt8) (d : Dir) (n : Nat) (m c : Bytes) (h : hdist c (toyEnc k d n m) = 1) :
+    toyDec k d c = none := by
+  cases hdec : toyDec k d c with
+  | none => rfl
+  | some x =>
+    exfalso
+    obtain ⟨n', rfl⟩ := toyDec_some k d c x hdec
+    simp only [toyEnc, hdist, if_pos rfl, Nat.zero_add, hdist_append_left] at h
+    by_cases ht : cks (UInt8.ofNat n' :: x) = cks (UInt8.ofNat n :: m)
+    · simp only [ht, if_pos rfl, Nat.zero_add] at h
+      have : hdist (UInt8.ofNat n' :: x) (UInt8.ofNat n :: m) = 1 := by simpa [hdist] using h
+      exact cks_hdist1 _ _ this ht
+    · simp only [ht, if_false] at h
+      by_cases hn : UInt8.ofNat n' = UInt8.ofNat n
+      · simp only [hn, if_pos rfl] at h
+        have hx : x = m := hdist_eq_zero x m (by omega)
+        subst hx
+        exact ht (by rw [hn])
+      · simp only [hn, if_false] at h
+        omega
 
 def toyLaws : Aead.Laws toy where
   ovh := 24
@@ -51,6 +133,7 @@ def toyLaws : Aead.Laws toy where
     · rintro ⟨n, rfl⟩
       exact toyDec_toyEnc k d n m
   sep := toyEnc_sep
+  tamper1 := toy_tamper1
 
 /-! ### layers -/
 
